@@ -9,7 +9,7 @@ EXPLANATION = ("The ordered sequence of stat/mode fields that Entry::write_to em
                "sequence entries::load_one reads (and git's layout); the path length saturates at Flags::PATH_LEN on write (comparison and bit-or with the "
                "same item) and the reader tests the same item before scanning for NUL; the writer pads to a multiple of 8 relative to the header and the "
                "reader's skip_padding uses +8 & !7; every extension signature the writer emits is one the reader dispatches on, with git's 4-byte values. "
-               "Acceptance by git and full state equality are not decided.")
+               "CountBytes::write grows its counter by the inner writer's returned count on the success edge; the closure that writes the TREE extension tests Flags::REMOVE. Acceptance by git and full state equality are not decided.")
 SIGS = {"tree": b"TREE", "end_of_index_entry": b"EOIE", "sparse": b"sdir", "link": b"link", "resolve_undo": b"REUC", "untracked_cache": b"UNTR",
         "fs_monitor": b"FSMN", "index_entry_offset_table": b"IEOT"}
 
